@@ -110,6 +110,10 @@ pub struct Variant {
     /// compared build runs.  Output depends on the project contents, not on what came before.
     #[serde(default)]
     pub earlier: Vec<Vec<(String, String)>>,
+    /// the process runs with a logger that takes everything (`beff -v` sets the log level to
+    /// Debug): the arguments of log macros are evaluated there and nowhere else
+    #[serde(default)]
+    pub verbose: bool,
 }
 
 #[derive(Serialize, Deserialize, Clone, Debug, PartialEq, Eq, Default)]
